@@ -1,3 +1,10 @@
+pub mod c01;
+pub mod c08;
+pub mod c09;
+pub mod c10;
+pub mod c11;
+pub mod c13;
+pub mod c16;
 pub mod families;
 
 use crate::util::Report;
@@ -5,11 +12,18 @@ use crate::util::Report;
 pub fn run(id: &str, tier: &str, seed: u64) -> i32 {
     let mut r = Report::new(id, tier, seed);
     match id {
+        "C01" => c01::run(&mut r),
         "C02" => families::c02(&mut r),
         "C03" => families::c03(&mut r),
         "C04" => families::c04(&mut r),
         "C05" => families::c05(&mut r),
         "C06" => families::c06(&mut r),
+        "C08" => c08::run(&mut r),
+        "C09" => c09::run(&mut r),
+        "C10" => c10::run(&mut r),
+        "C11" => c11::run(&mut r),
+        "C13" => c13::run(&mut r),
+        "C16" => c16::run(&mut r),
         _ => {
             println!("unknown property id {id}");
             return 2;
@@ -26,5 +40,5 @@ pub fn bench() {
     let t = std::time::Instant::now();
     let ex = explore_prog(&p, Mode::Enum(20_000), false);
     let fails = ex.observed.iter().filter(|(o, _)| !matches!(o.term, crate::model::MTerm::Pass)).count();
-    println!("lost-notify: {} execs in {:.2}s, complete={}, failing outcome kinds={}", ex.executions, t.elapsed().as_secs_f64(), ex.complete, fails);
+    println!("condvar-epochs: {} execs in {:.2}s, complete={}, failing outcome kinds={}", ex.executions, t.elapsed().as_secs_f64(), ex.complete, fails);
 }
